@@ -55,6 +55,14 @@ CHECKS = {
          "Seeded search: query_input_value (resolutions 1-32, sensor changing between byte reads), SetEventFilters / QueryEventFilters (library 8-bit enums, harness-defined 16- and 24-bit enums, plain ints, stale DTR contents), SetEventSchemes (all schemes and invalid ones) and DeviceInstanceTypeMapper.autodiscover (0-64 devices, arbitrary status bits, 0-32 instances, two devices on one address) stepped against IEC 62386-103 control-device models with silence or a framing error at a seeded command index; oracle: reassembled value equals the latched value, instance filter/scheme equals the request and the returned read-back, scan map equals the enabled instances of healthy devices, scan bracketed in quiescent mode, faults lead to skip / None / DALISequenceError only.",
          "Trusted base: control-device model of DESIGN.md appendix A.3 (sim/busim.py).",
          "deterministic co-simulation of sequence and control-device models with answer faults and a concurrently changing sensor", "4"),
+ "C09": ("busim", "fault_enumeration",
+         "Fault enumeration over seeded scenarios: every declared value of banks 0, 0-legacy, 1, 202-207 (MemoryValue.read / read_raw) and MemoryBank.read_all with and without latch are stepped against a memory model of IEC 62386-102 9.10 (last accessible location anywhere in 0..254, holes, lock byte 0xFF/0x55/0xAA, gear and device addressing) while an environment actor rewrites live bytes between commands; each scenario runs fault-free and then once per (silence | framing error, command index). Oracle: value equals the library's own interpretation of the bytes the model shows at the declared locations (from the latched snapshot when latching), MemoryLocationNotImplemented / ResponseError exactly when a needed location is missing / an answer garbled, read_all reports exactly the fully readable values, memory byte-identical afterwards, bank not left latched - also after a read that raises.",
+         "Trusted base: memory model of DESIGN.md appendix A.2 (write enable reset by any frame outside the DTR / write / query-DTR family - the same reading the repository's fake gear uses); the library's check_raw/raw_to_value for interpretation (C11 not judged).",
+         "deterministic co-simulation with single-fault enumeration over every command index and concurrent memory mutation", "4"),
+ "C10": ("busim", "fault_enumeration",
+         "Fault enumeration over seeded scenarios: all 27 writable values (and the read-only ones, which must be refused before any command) with seeded raw data, initial lock byte locked / unlocked / odd, gear or device addressing, ignore_feedback / force_unlock options; each scenario runs fault-free and then once per (fault kind, command index): unit answers NO, echoes another byte, framing error on the echo, answer lost, DTR0 not advancing, unit stays locked, non-standard unlock value, bank shorter than the value, unrelated frame of another master before each command. Oracle: a normal return implies exactly those bytes at exactly those locations, nothing else changed in any bank or unit, lockable bank locked again; failures only through the documented memory/response exceptions; no failure without a fault.",
+         "Trusted base: memory model of DESIGN.md appendix A.2; cell types taken from the library's declarations (layout is C11's business).",
+         "deterministic co-simulation with single-fault enumeration over fault kinds x command indices", "4"),
 }
 
 PLANNED = {}
